@@ -528,6 +528,177 @@ def replace_refusals(ct, rep, rule="replace-refusals"):
         rep.fail(rule, ct.mod.path.name, fq, ff.f.node, "replace_block never refuses: replacing an absent block silently adds it", construct=f"{fq} absent refusal")
 
 
+def replace_composition(ct: Container, rep, rule="replace-composition"):
+    """'assigning through a convenience property replaces the existing block': on every path of replace_block that does not
+    refuse, the block of the new block's type is removed (self.remove_block(<new>.type | <new> | <the entry found by that
+    type>.type)) and then the new block is added (self.add_block(<new>, ..)), in that order.  (That replace_block has no file
+    effect of its own is C08's guard-table rule.)"""
+    from ..facts import path_returns
+    from ..normalize2 import eval_order
+    ff = ct.facts("replace_block")
+    fq = "Tdf.replace_block"
+    bp = ff.f.params[0]
+    mod = ct.mod.path.name
+    n = 0
+    for pe in path_returns(ff.f.node):
+        if pe.kind == "raise":
+            continue
+        n += 1
+        calls = []
+        for e in pe.effects:
+            for x in eval_order(e):
+                if isinstance(x, ast.Call) and isinstance(x.func, ast.Attribute) and isinstance(x.func.value, ast.Name) and x.func.value.id == (ff.f.self_name or "self") \
+                        and x.func.attr in ("remove_block", "add_block"):
+                    calls.append(x)
+        rm = next((c for c in calls if c.func.attr == "remove_block"), None)
+        ad = next((c for c in calls if c.func.attr == "add_block"), None)
+
+        def arg0(c, kw):
+            if c.args:
+                return c.args[0]
+            return next((k.value for k in c.keywords if k.arg == kw), None)
+
+        if rm is None:
+            rep.fail(rule, mod, fq, pe.node, "a path of replace_block that does not refuse never removes the old block: the following add is refused as a duplicate (or a second block of the type appears)",
+                     construct=f"{fq} without remove_block")
+            continue
+        if ad is None:
+            rep.fail(rule, mod, fq, pe.node, "a path of replace_block removes the old block and never adds the new one: the block is lost", construct=f"{fq} without add_block")
+            continue
+        if calls.index(rm) > calls.index(ad):
+            rep.fail(rule, mod, fq, pe.node, "replace_block adds the new block before removing the old one: the add is refused as a duplicate", construct=f"{fq} add before remove")
+            continue
+        ra = arg0(rm, "type")
+        rtxt = norm(ra) if ra is not None else None
+        ok_r = rtxt in (bp, f"{bp}.type") or (isinstance(ra, ast.Attribute) and ra.attr == "type" and first_of_type(ct, ra.value, f"{bp}.type") is not None)
+        aa = arg0(ad, ct.prog.need_method(ct.tdf, "add_block").params[0])
+        ok_a = aa is not None and norm(aa) == bp
+        if not ok_r:
+            rep.fail(rule, mod, fq, rm, f"replace_block removes `{rtxt}`, not the block of the new block's type (`{bp}.type`)", construct=f"{fq} removed type")
+        elif not ok_a:
+            rep.fail(rule, mod, fq, ad, f"replace_block adds `{norm(aa) if aa is not None else None}`, not the new block `{bp}`", construct=f"{fq} added block")
+        else:
+            rep.ok(rule, f"{fq}: removes the block of `{bp}.type`, then adds `{bp}`", nontrivial=True)
+    if not n:
+        raise AnalysisError(f"{fq}: no non-refusing path found")
+    rep.floor(rule, n, 1)
+
+
+def write_context_admission(ct: Container, rep, rule="write-context-admission"):
+    """'assigning through a convenience property replaces the existing block or adds it': in the state a write context is in
+    (inside a context entered after allow_write(): _inside_context True, _mode read-write, handle open read-write) none of the
+    guards of add_block / remove_block / replace_block / the setters - decorator wrappers (path summaries of tdfUtils) and
+    the explicit mode checks in the bodies - refuses.  Evaluated with the typestate evaluation of C08 over the write-context
+    states the machine reaches."""
+    from .c08 import Model, body_guards, eval_guard, wrapper_guards
+    model = Model(ct)
+    states, _ = model.reachable()
+    wstates = [s for s in states if s[0] and s[2] == "rw" and s[3]]
+    if not wstates:
+        raise AnalysisError("no write-context state is reachable in the typestate machine (allow_write / __enter__ no longer open the file read-write?)")
+    wg = wrapper_guards(ct)
+    mod = ct.mod.path.name
+    n = 0
+    targets = [(m, ct.facts(m)) for m in ("add_block", "remove_block", "replace_block")] + [(f"{f.name}.setter", ct.facts(f.name, "setter")) for f in ct.setters()]
+    for name, ff in targets:
+        fq = f"Tdf.{name}"
+        conds = [(d, wg[d][0]) for d in ff.f.decorators if d in wg and wg[d][0] is not None]
+        if name in ("add_block", "remove_block"):
+            conds += [("explicit mode check", c) for c in body_guards(ct, ff)]
+        n += 1
+        bad = [(d, s) for d, c in conds for s in wstates if eval_guard(c, s)]
+        if bad:
+            d, s = bad[0]
+            rep.fail(rule, mod, fq, ff.f.node, f"inside a write context (state inside={s[0]}, mode={s[1]!r}) the guard `{d}` refuses {name}: blocks can no longer be added / replaced through it",
+                     construct=f"{fq} refused in write context by {d}")
+        else:
+            rep.ok(rule, f"{fq}: its {len(conds)} guard(s) admit the call in the {len(wstates)} reachable write-context state(s)", nontrivial=bool(conds))
+    rep.floor(rule, n, 8)
+
+
+def removal_selects_type(ct: Container, rep, rule="removal-selects-type"):
+    """remove_block(T) removes the block OF TYPE T (replace_block and the setters rely on it: removing another block leaves
+    the old one in place and the following add is refused as a duplicate).  Every test that selects an entry of the table
+    by its `.type` inside remove_block - a comprehension filter over self.entries / enumerate(self.entries), or an `if`
+    inside a loop over them whose true branch captures the entry - states `<entry>.type == <expression of the parameter>`,
+    not its negation; a positional search (`[e.type for e in entries].index(T)`) is the same statement by construction."""
+    from ..facts import equality_fact
+    f = ct.prog.need_method(ct.tdf, "remove_block")
+    fq = "Tdf.remove_block"
+    param = f.params[0]
+    mod = ct.mod.path.name
+    found = 0
+
+    def over_entries(it):
+        while isinstance(it, ast.Call) and norm(it.func) in ("enumerate", "list", "tuple", "iter", "reversed", "range", "len") and it.args:
+            if norm(it.func) == "reversed":
+                return False
+            it = it.args[-1] if norm(it.func) == "range" else it.args[0]
+        return ct.is_entries(it)
+
+    def vars_of(target):
+        return {n.id for n in ast.walk(target) if isinstance(n, ast.Name)}
+
+    def judge(test, pol, vs, node):
+        nonlocal found
+        from ..facts import flat_facts
+        for t, p_ in flat_facts([(test, pol)]):
+            ef = equality_fact(t, p_)
+            if ef is None and isinstance(t, ast.Compare) and len(t.ops) == 1 and isinstance(t.ops[0], (ast.Is, ast.IsNot)):
+                ef = (t.left, t.comparators[0], isinstance(t.ops[0], ast.Is) == p_)
+            if ef is None:
+                continue
+            a, b, eq = ef
+            for x, y in ((a, b), (b, a)):
+                if isinstance(x, ast.Attribute) and x.attr == "type" and any(isinstance(n_, ast.Name) and n_.id in vs for n_ in ast.walk(x.value)) \
+                        and any(isinstance(n, ast.Name) and n.id == param for n in ast.walk(y)):
+                    found += 1
+                    if eq:
+                        rep.ok(rule, f"{fq}: the entry to remove is selected by `{norm(t)}`", nontrivial=True)
+                    else:
+                        rep.fail(rule, mod, fq, node, f"the entry to remove is selected by the NEGATION of the type match (`{norm(t)}` taken {'true' if p_ else 'false'}): a block of another type is removed",
+                                 construct=f"{fq} selection predicate")
+
+    for n in ast.walk(f.node):
+        if isinstance(n, (ast.GeneratorExp, ast.ListComp, ast.SetComp)):
+            for g in n.generators:
+                if over_entries(g.iter):
+                    vs = vars_of(g.target)
+                    for c in g.ifs:
+                        judge(c, True, vs, c)
+                    # any(e.type == T ...) used as a presence test is not a selection; a filter in the element of next() is
+        if isinstance(n, ast.For) and over_entries(n.iter):
+            vs = vars_of(n.target)
+            for st in ast.walk(n):
+                if isinstance(st, ast.If):
+                    def captures(block):
+                        for b in block:
+                            for x in ast.walk(b):
+                                if isinstance(x, (ast.Break, ast.Return)):
+                                    return True
+                                if isinstance(x, ast.Assign) and any(isinstance(v, ast.Name) and v.id in vs for v in ast.walk(x.value)) \
+                                        and not any(isinstance(t_, ast.Attribute) for t_ in x.targets):
+                                    return True
+                                if isinstance(x, ast.Call) and isinstance(x.func, ast.Attribute) and x.func.attr in ("remove", "pop") and ct.is_entries(x.func.value):
+                                    return True
+                        return False
+                    if captures(st.body):
+                        judge(st.test, True, vs, st)
+                    elif captures(st.orelse):
+                        judge(st.test, False, vs, st)
+        if isinstance(n, ast.Call) and isinstance(n.func, ast.Attribute) and n.func.attr == "index" and isinstance(n.func.value, (ast.ListComp, ast.Call)):
+            lc = n.func.value
+            while isinstance(lc, ast.Call) and norm(lc.func) in ("list", "tuple") and lc.args:
+                lc = lc.args[0]
+            if isinstance(lc, (ast.ListComp, ast.GeneratorExp)) and len(lc.generators) == 1 and over_entries(lc.generators[0].iter) and not lc.generators[0].ifs \
+                    and isinstance(lc.elt, ast.Attribute) and lc.elt.attr == "type" and n.args and any(isinstance(x, ast.Name) and x.id == param for x in ast.walk(n.args[0])):
+                found += 1
+                rep.ok(rule, f"{fq}: the entry to remove is found by position of the type in the list of entry types", nontrivial=True)
+    if not found:
+        raise AnalysisError(f"{fq}: no test selecting the entry to remove by its type was recognised (anchor vanished or an unmodelled lookup form)")
+    rep.floor(rule, found, 1)
+
+
 def run(prog, rep):
     ct = Container(prog)
     rep.explanation = (
@@ -545,6 +716,9 @@ def run(prog, rep):
     rep.attempt(M.slot_position, ct, rep, rule="table-pairing/slot")
     rep.attempt(M.parse_on_enter, ct, rep)
     rep.attempt(replace_refusals, ct, rep)
+    rep.attempt(replace_composition, ct, rep)
+    rep.attempt(write_context_admission, ct, rep)
+    rep.attempt(removal_selects_type, ct, rep)
     # 'at every point': a refused add/remove must not leave a phantom entry in the in-memory table
     from ..codecs import Codecs
     from .c07 import path_rules
